@@ -129,18 +129,20 @@ def run_check(cwd, paths, quiet=False, excludes=(), entry=True):
     return _invoke(fn, cwd)
 
 
-def run_scan(cwd, path=".", excludes=(), entry=True):
+def run_scan(cwd, path=".", excludes=(), entry=True, verbose=False):
     """codelimit scan [--exclude x]... path     through the entry function of codelimit.__main__ (see _entry)."""
     from codelimit.commands.scan import scan_command
     from codelimit.common.Configuration import Configuration
 
     def fn():
         reset_config()
-        call = _entry("scan", path=Path(path), exclude=list(excludes) or None, verbose=False) if entry else None
+        call = _entry("scan", path=Path(path), exclude=list(excludes) or None, verbose=verbose) if entry else None
         if call is not None:
             return call()
         if excludes:
             add_excludes(excludes)
+        if verbose:
+            Configuration.verbose = True
         Configuration.load(Path(path))
         scan_command(Path(path))
 
